@@ -810,6 +810,7 @@ func c03r4(c *core.Ctx) {
 	// a depth counter: a field of Parser that is incremented and compared with a constant in some recursive method
 	info := pp.TypesInfo
 	depthGuard := ""
+	guardMethods := map[*types.Func]*types.Var{}
 	for _, m := range core.Methods(parserT) {
 		fd := p.Decl(m)
 		if fd == nil || fd.Body == nil {
@@ -837,12 +838,191 @@ func c03r4(c *core.Ctx) {
 		for f := range inc {
 			if cmp[f] {
 				depthGuard = m.Name() + "." + f.Name()
+				guardMethods[m] = f
 			}
 		}
 	}
 	c.Check(depthGuard != "", "parser.Parser|recursion-depth-bound", posOf(p, p.Decl(core.MustMethod(parserT, "Parse"))),
 		sprintf("the recursive-descent parser (%d mutually recursive methods) bounds its nesting depth with a counter compared against a constant; the compiler's and ast.String's recursions are bounded by the AST depth only if the parser bounds it", len(recursive))+ifs(depthGuard != "", " (guard: "+depthGuard+")"))
 	c.Stat("recursive_parser_methods", len(recursive))
+	if len(guardMethods) == 0 {
+		return
+	}
+	// With a guard in place: (1) every recursion cycle of the parser passes
+	// through a function that counts the depth, either inline or by calling
+	// the counting helper; (2) such a function counts the left spine it
+	// builds iteratively (each turn of a loop that applies an infix function
+	// makes the tree one level deeper without recursing); (3) it puts the
+	// counter back on the way out.
+	counterFns := map[*ssa.Function]*types.Var{}
+	for m, fld := range guardMethods {
+		if sf := p.SSAFunc(m); sf != nil {
+			counterFns[sf] = fld
+		}
+	}
+	// counting: function -> the counter it advances (inline or through a helper)
+	counting := map[*ssa.Function]*types.Var{}
+	for f := range cg.Nodes {
+		if f == nil || f.Pkg == nil || f.Pkg.Pkg != pp.Types {
+			continue
+		}
+		if fld, ok := counterFns[f]; ok {
+			counting[f] = fld
+			continue
+		}
+		for _, b := range f.Blocks {
+			for _, in := range b.Instrs {
+				if ci, ok := in.(ssa.CallInstruction); ok {
+					if cal := ci.Common().StaticCallee(); cal != nil {
+						if fld, ok := counterFns[cal]; ok {
+							counting[f] = fld
+						}
+					}
+				}
+			}
+		}
+	}
+	avoid := map[*ssa.Function]bool{}
+	for f := range counting {
+		avoid[f] = true
+	}
+	var unguarded []string
+	for f := range cg.Nodes {
+		if f == nil || f.Pkg == nil || f.Pkg.Pkg != pp.Types || avoid[f] {
+			continue
+		}
+		if onCycleAvoiding(cg, f, avoid) {
+			unguarded = append(unguarded, core.SSAName(f))
+		}
+	}
+	sort.Strings(unguarded)
+	c.Check(len(unguarded) == 0, "parser.Parser|every-cycle-passes-the-depth-guard", posOf(p, p.Decl(core.MustMethod(parserT, "Parse"))),
+		sprintf("every recursion cycle among the parser's functions passes through one of the %d functions that count the depth (%s); on a cycle that avoids them: %v", len(counting), depthGuard, unguarded))
+	c.Stat("parser_depth_counting_functions", len(counting))
+	isCounterCall := func(call *ast.CallExpr) bool {
+		if fn := calleeOf(info, call); fn != nil {
+			for m := range guardMethods {
+				if fn == m {
+					return true
+				}
+			}
+		}
+		return false
+	}
+	var names []string
+	byName := map[string]*ssa.Function{}
+	for f := range counting {
+		if f.Parent() != nil {
+			continue
+		}
+		names = append(names, core.SSAName(f))
+		byName[core.SSAName(f)] = f
+	}
+	sort.Strings(names)
+	for _, name := range names {
+		f := byName[name]
+		fld := counting[f]
+		fobj, _ := f.Object().(*types.Func)
+		if fobj == nil {
+			continue
+		}
+		fd := p.Decl(fobj)
+		if fd == nil || fd.Body == nil {
+			continue
+		}
+		loops, counted := 0, 0
+		restored := false
+		ast.Inspect(fd.Body, func(n ast.Node) bool {
+			switch x := n.(type) {
+			case *ast.ForStmt:
+				applies := false
+				incs := false
+				ast.Inspect(x.Body, func(n ast.Node) bool {
+					switch y := n.(type) {
+					case *ast.CallExpr:
+						if isCounterCall(y) {
+							incs = true
+						}
+						if id, ok := ast.Unparen(y.Fun).(*ast.Ident); ok {
+							if v, ok := info.Uses[id].(*types.Var); ok {
+								if _, isSig := v.Type().Underlying().(*types.Signature); isSig && len(y.Args) > 0 {
+									applies = true
+								}
+							}
+						}
+					case *ast.IncDecStmt:
+						if y.Tok == token.INC && fieldOf(info, y.X) == fld {
+							incs = true
+						}
+					}
+					return true
+				})
+				if applies {
+					loops++
+					if incs {
+						counted++
+					}
+				}
+			case *ast.IncDecStmt:
+				if x.Tok == token.DEC && fieldOf(info, x.X) == fld {
+					restored = true
+				}
+			case *ast.AssignStmt:
+				for _, l := range x.Lhs {
+					if fieldOf(info, l) == fld {
+						restored = true
+					}
+				}
+			}
+			return true
+		})
+		if loops > 0 {
+			c.Check(counted == loops, name+"|left-spine-counted", posOf(p, fd),
+				sprintf("%s applies infix functions in %d loop(s), each turn of which makes the tree one level deeper without recursing; %d of them advance the depth counter %s (a + b + c + … builds a tree as deep as it is long, which the compiler then walks recursively)", fobj.Name(), loops, counted, fld.Name()))
+		}
+		if _, isHelper := counterFns[f]; isHelper && loops == 0 && !restored {
+			// the counting helper itself only counts up: its callers restore
+			continue
+		}
+		c.Check(restored, name+"|depth-restored", posOf(p, fd),
+			fobj.Name()+" puts the depth counter "+fld.Name()+" back on the way out (otherwise it counts nodes, not depth, and long flat programs are rejected)")
+	}
+}
+
+// onCycleAvoiding reports whether f can reach itself in the call graph
+// without passing through a function in avoid.
+func onCycleAvoiding(cg *callgraph.Graph, f *ssa.Function, avoid map[*ssa.Function]bool) bool {
+	seen := map[*ssa.Function]bool{}
+	var stack []*ssa.Function
+	push := func(from *ssa.Function) bool {
+		if nd := cg.Nodes[from]; nd != nil {
+			for _, e := range nd.Out {
+				g := e.Callee.Func
+				if g == nil || avoid[g] || g.Pkg == nil || g.Pkg != f.Pkg {
+					continue
+				}
+				if g == f {
+					return true
+				}
+				if !seen[g] {
+					seen[g] = true
+					stack = append(stack, g)
+				}
+			}
+		}
+		return false
+	}
+	if push(f) {
+		return true
+	}
+	for len(stack) > 0 {
+		g := stack[len(stack)-1]
+		stack = stack[:len(stack)-1]
+		if push(g) {
+			return true
+		}
+	}
+	return false
 }
 
 func reachesFunc(cg *callgraph.Graph, from, to *ssa.Function, maxDepth int) bool {
